@@ -96,8 +96,14 @@ Definition ystart (v : variant) (a b : list pt) : Q :=
   match v with Legacy => 0 | Fixed => first_ordinate a b end.
 
 (* one depth of union_crit_pairs *)
-Definition add_depth (v : variant) (a b : list pt) : option (list pt) :=
+Definition add_depth_core (v : variant) (a b : list pt) : option (list pt) :=
   option_map (slope_to_pos (ystart v a b)) (sum_slopes (pos_to_slope a) (pos_to_slope b)).
+(* an explicitly empty depth makes the code raise (a[0] / l[-1]: IndexError): None *)
+Definition add_depth (v : variant) (a b : list pt) : option (list pt) :=
+  match a, b with
+  | [], _ | _, [] => None
+  | _ :: _, _ :: _ => add_depth_core v a b
+  end.
 
 (* union_crit_pairs: itertools.zip_longest over the depths *)
 Fixpoint union_crit_pairs (v : variant) (A B : list (list pt)) : option (list (list pt)) :=
